@@ -656,13 +656,13 @@ func (e *Engine) smtTextQF(hyps []*Term, goal *Term, leaves []*Term) string {
 // ---------- harness generation ----------
 
 type Replay struct {
-	Func     string            `json:"function"`
-	Inputs   map[string]JVal   `json:"inputs"`
-	Observed map[string]JVal   `json:"observed,omitempty"`
-	Panic    string            `json:"panic,omitempty"`
-	Verdict  string            `json:"verdict"`
-	Clause   string            `json:"clause,omitempty"`
-	Detail   string            `json:"detail,omitempty"`
+	Func     string          `json:"function"`
+	Inputs   map[string]JVal `json:"inputs"`
+	Observed map[string]JVal `json:"observed,omitempty"`
+	Panic    string          `json:"panic,omitempty"`
+	Verdict  string          `json:"verdict"`
+	Clause   string          `json:"clause,omitempty"`
+	Detail   string          `json:"detail,omitempty"`
 }
 
 func (e *Engine) genHarness(fn *ssa.Function, names []string, resNames []string) (pkgDir string, src string) {
